@@ -73,11 +73,11 @@ inline Opm::ParseContext lenient_context() {
 inline std::string item_text(const Opm::ParserItem& it, int variant) {
     std::string one;
     switch (it.dataType()) {
-    case Opm::type_tag::integer: one = variant ? "3" : "7"; break;
-    case Opm::type_tag::fdouble: one = variant ? "0.5" : "1.25"; break;
-    case Opm::type_tag::string: one = variant ? "'A B'" : "'ABC'"; break;
+    case Opm::type_tag::integer: one = variant == 1 ? "3" : "7"; break;
+    case Opm::type_tag::fdouble: one = variant == 1 ? "0.5" : "1.25"; break;
+    case Opm::type_tag::string: one = variant == 0 ? "'ABC'" : variant == 1 ? "'A B'" : variant == 2 ? "'A/B'" : "'A--B'"; break;   // 2,3: terminator / comment characters inside quotes
     case Opm::type_tag::raw_string: one = "RAW"; break;
-    case Opm::type_tag::uda: one = variant ? "'WUX'" : "2.5"; break;
+    case Opm::type_tag::uda: one = variant == 1 ? "'WUX'" : "2.5"; break;
     default: one = "1";
     }
     if (it.sizeType() == Opm::ParserItem::item_size::ALL) return one + " " + one + " " + one + " " + one + " " + one;
